@@ -42,6 +42,25 @@ PROPS = {
                      "ff's generic Field::pow (contract assumed here: pow(x,[e]) = x^e; it is C08's obligation)"],
         assumptions=[A['A5p'], A['A7'], "laws of f12pow in specs/f12pow.vrs (ring theory of the commutative ring of specs/tower.vrs)", A['D_FQ'], A['TOOLS']],
     ),
+    'C11': dict(
+        standins=['pairing_products'],
+        units_quick=['miller', 'finalexp'], units_thorough=['miller', 'finalexp', 'tower', 'ffdep'], timeout=1800,
+        claim="PARTIAL (the product structure; what a single pairing IS - bilinearity, the value e(g1,g2) - is C03's subject and not claimed). Bls12::miller_loop (real body, the generic iterator argument "
+              "written out at a slice of pairs) returns, for every list of prepared pairs of any length including zero, the product over the list of mlk(pair), where mlk(pair) = 1 when either side is the "
+              "identity (wherever the pair stands) and otherwise the textbook single-pair loop value ml1(pair) = conj( st(pair, |x|/2) * line_last ), st being the square-and-multiply recursion over the bits of "
+              "BLS_X >> 1 with the pair's own coefficient list consumed in order: the accumulator shared across pairs equals the product of the per-pair accumulators after every bit (loop invariants for the "
+              "bit loop and for each of the three passes over the pairs), every coefficient iterator advances in lock step, and no `next().unwrap()` can fail (68 coefficients are consumed). The nested fn "
+              "`ell` multiplies by the sparse line value (real body against Fq12::mul_by_014). G2Prepared::from_affine (real body) marks exactly the identity and produces exactly 68 coefficients otherwise, "
+              "which is miller_loop's precondition. Lemma `lemma_joint_is_product`: with final_exponentiation = x -> x^E (C12, run by this check as well) the final exponentiation of the joint loop equals the "
+              "product of the final exponentiations of the single-pair loops, identity pairs contributing the factor 1; miller_loop on a one-element list returns mlk of that pair. The prepared elements are "
+              "taken by shared reference and not modified (the contract's frame), so they can be reused.",
+        not_covered=["bilinearity / e(g1,g2)^(sum a_i b_i) and the exact-1 statement for cancelling exponents (C03: not applicable, see DESIGN; the stand-in observes cancelling combinations through the compiled code)",
+                     "the helpers pairing / pairing_product / pairing_multi_product (trait defaults in lib.rs built from closures, iterator adaptors and references to temporaries: outside the Verus subset) - only through the labelled stand-in",
+                     "the values of the line coefficients (doubling_step / addition_step enter as uncontracted stubs)"],
+        assumptions=["A-RING12: Fq12 with f12mul / f12one is a commutative monoid, conjugation is multiplicative and x -> x^e is multiplicative (axioms ax_f12mul_assoc / _comm / _one / _in, ax_f12conj_mul / _one / _in, ax_f12pow_mulbase / _of_one in specs/miller.vrs: mathematical facts about the specification functions, not about the code)",
+                     "std::slice::Iter yields the elements of the slice in order: `Vec::iter` is replaced by a verified model of the slice iterator (rule R21); the generic argument `I: IntoIterator<Item = &(&G1Prepared, &G2Prepared)>` is instantiated at a slice of pairs (R6) and the `for` loops over the pair lists are desugared to index loops (R22 / R22m); the nested fns are lifted to items (R23)",
+                     "contracts of Fq12::{one, square, conjugate, mul_by_014} and Fq::mul_assign proved in unit tower / mont; ff's BitIterator proved in unit ffdep", A['TOOLS']],
+    ),
     'C01': dict(
         standins=['batch_normalization'],
         units_quick=['curve'], units_thorough=['curve'], timeout=1800,
@@ -268,11 +287,9 @@ PROPS = {
 HOOK_COMMITS = []
 NOT_APPLICABLE = {
     'C03': "bilinearity, non-degeneracy and agreement with the textbook optimal-ate pairing are statements about the divisor-theoretic Miller function; a contract on "
-           "miller_loop / prepare would have to carry that theory (no such library exists for Verus, and the solver cannot derive it), and the loop itself is outside the Verus "
-           "subset (same construct as C11: `for &mut (p, ref mut coeffs)` over Vec<(&G1Prepared, slice::Iter)>); CBMC cannot carry a single Fq12 multiplication. The parts of the "
-           "pairing that contracts do reach are claimed under C12 (final exponentiation == f^(3(q^12-1)/r)) and C09 (tower arithmetic)",
-    'C11': "the property is about miller_loop's joint iteration over Vec<(&G1Prepared, slice::Iter<..>)> via `for &mut (p, ref mut coeffs)`; "
-           "outside the Rust subset of Verus, and CBMC cannot carry an Fq12 multiplication, so no contract within reach decides it",
+           "miller_loop / prepare would have to carry that theory (no such library exists for Verus, and the solver cannot derive it), and the loop itself is outside the "
+           "Verus subset as written (it is verified after rule-based desugaring under C11, for its product structure only); CBMC cannot carry a single Fq12 multiplication. The parts of the "
+           "pairing that contracts do reach are claimed under C12 (final exponentiation == f^(3(q^12-1)/r)), C11 (the joint loop is the product of the single-pair loops) and C09 (tower arithmetic)",
     'C20': "quantifies over thread schedules and call histories; Kani has no thread support and the Verus units contain no shared state to attach "
            "permissions to (functional postconditions give per-call determinism only, which is recorded under the other properties, not claimed here)",
 }
@@ -303,6 +320,7 @@ PROVENANCE = [
     (r'^external_body:G[12](Compressed|Uncompressed)::into_affine(_unchecked)?$', 'contract proved in unit codec (C04)'),
     (r'^external_body:(G1|G2)::(clear_h|isogeny_map|osswu_map)$', 'contracts of units cofactor (C17) / symx:iso (C16) / sswu (C15)'),
     (r'^external_body:(G1Affine|G2Affine)::get_coeff_b$|^external_body:Fr::char$|^external_body:ax_neg_one_value$', 'value of the constant: checked as a closed term in unit consts'),
+    (r'^external_body:(doubling_step|addition_step)$|^external_body:G2Affine::into$', 'uncontracted stub: only that it returns is assumed (its value is C03\'s subject and is not used by the C11 contract)'),
     (r'^external_body:Sgn0Result::eq$', 'derived PartialEq of a field-less enum: structural equality'),
     (r'^external_body:hash_to_field$', 'block splitting proved in unit okm (C13); expand_message itself only through the labelled stand-in'),
     (r'^external_body:Fq::(negate_if|sgn0)$|^external_body:Sgn0Result::bitxor$', 'contract proved in unit order (C18)'),
